@@ -1,7 +1,7 @@
 /-
 Crash while a call writes its entry and the GC touches, from a state satisfying the relaxed
-invariant: at any byte, `open` succeeds with the queues before or after the call up to the file
-handles; at an effect boundary moreover the recovered log satisfies the relaxed invariant again.
+invariant: at ANY byte, `open` succeeds with the queues before or after the call up to the file
+handles, and the recovered log satisfies the relaxed invariant again.
 -/
 import MRL.Proofs.LInv
 import MRL.Proofs.HAtomic
@@ -71,96 +71,7 @@ theorem phase_replays (g : Geom) {l : Log} {J : List JE} (hJ : JInv l J) (e : En
     obtain ⟨q1, r1, r2, _⟩ := extend_rep hHl.inv hrep heq hqwf hexact
     exact ⟨q1, by rw [List.take_succ_cons]; exact r1, Or.inr (AbsEq.of_qsEquiv r2)⟩
 
-/-- reading any crash state (any byte) of a write phase -/
-theorem phase_readX (g : Geom) (hB : g.B ≤ 65542) {l l3 : Log} {D D3 : Image} {F : Nat} {J Jnew : List JE}
-    {init init3 : List Bytes} {t t3 : Bytes} {x x3 : Bool} {afs ntf lead : List TFrm} {gs newgs : List Grp}
-    (h0 : XInvX g l D F J init t x afs lead gs)
-    (h3 : XInvX g l3 D3 F (J ++ Jnew) init3 t3 x3 (afs ++ ntf) lead (gs ++ newgs))
-    (hlen3 : (init3.flatten ++ t3).length = endPos g 0 (untag (afs ++ ntf)))
-    (hnewloc : ∀ j ∈ Jnew, F ≤ j.loc)
-    (hwf : ∀ j ∈ J ++ Jnew, C07.WF j.e)
-    (qf : MemQueues) (hrep : replayJ F [] (J ++ Jnew) = some qf)
-    (htorn : ∀ a ∈ ntf, TornFrame a.2.1 a.2.2)
-    (X : Image) (Pm : Bytes) (hX : CTape g F Pm X)
-    (hcut : PrefixCut (init.flatten ++ t) (init3.flatten ++ t3) Pm) (policy : Policy) :
-    ∃ i qs lp e0 io, i ≤ Jnew.length ∧ replayJ F [] (J ++ Jnew.take i) = some qs ∧
-      recoverPre g X policy none = .ok (lp, e0, io) ∧ AbsEq qs lp.queues := by
-  obtain ⟨cs, hne, hfull, ⟨z, hflat⟩, hXform⟩ := hX
-  obtain ⟨m, hm1, hm2, hPm⟩ := hcut
-  have hPf : init3.flatten ++ t3 = (layoutBufs g 0 (untag (afs ++ ntf))).flatten := by
-    have := h3.lay.bytes
-    rw [hlen3, Nat.sub_self] at this
-    simpa [zeros] using this
-  have hnewmap : (liveOf newgs).map (·.1) = Jnew := by
-    have hm := h3.hmap
-    rw [liveOf_append, List.map_append, List.filter_append, h0.hmap] at hm
-    have := List.append_cancel_left hm
-    rw [this, List.filter_eq_self]
-    intro j hj; simpa using hnewloc j hj
-  have hE0 : endPos g 0 (untag afs) ≤ (init.flatten ++ t).length := by
-    rcases h0.lay.len with h | h
-    · omega
-    · have := le_hdrPos g (endPos g 0 (untag afs)); omega
-  have hrepf : replayJ F [] ((liveOf (gs ++ newgs)).map (·.1)) = some qf := by
-    rw [h3.hmap, ← replayJ_filter]; exact hrep
-  obtain ⟨j1, qs, lp, e0, io, hj1, hj2, hq, hrec, hlq⟩ := crash_readX g hB F cs hne hfull X hXform
-    (afs ++ ntf) h3.lay.fits h3.lay.tagged lead (gs ++ newgs) h3.hafs h3.hlead h3.hok
-    (by
-      intro s hs
-      have : s.1 ∈ (liveOf (gs ++ newgs)).map (·.1) := List.mem_map_of_mem (f := (·.1)) hs
-      rw [h3.hmap] at this
-      have := List.mem_filter.mp this
-      exact ⟨hwf _ this.1, by simpa using this.2⟩)
-    qf hrepf m z (by rw [← hlen3]; exact hm2) (by rw [hflat, hPm, hPf])
-    gs.length (by simp)
-    (by
-      rw [List.take_left' rfl, ← h0.hafs]
-      omega)
-    (by
-      intro fs1 tt p fs2 hsplit hlt
-      have hmem : (tt, p) ∈ untag ntf := by
-        rw [untag_append] at hsplit
-        rcases List.append_eq_append_iff.mp hsplit with ⟨a', h1, h2⟩ | ⟨c', h1, h2⟩
-        · cases a' with
-          | nil =>
-            simp only [List.append_nil] at h1 h2
-            rw [h2]; simp
-          | cons x xs =>
-            rw [h2]
-            simp
-        · cases c' with
-          | nil =>
-            simp only [List.nil_append] at h2
-            rw [← h2]; simp
-          | cons x xs =>
-            exfalso
-            simp only [List.cons_append, List.cons.injEq] at h2
-            obtain ⟨rfl, _⟩ := h2
-            have : endPos g 0 (fs1 ++ [(tt, p)]) ≤ endPos g 0 (untag afs) := by
-              rw [h1, show fs1 ++ (tt, p) :: xs = (fs1 ++ [(tt, p)]) ++ xs by simp]
-              exact endPos_mono g 0 _ _
-            omega
-      obtain ⟨a, ha, hae⟩ := List.mem_map.mp hmem
-      have := htorn a ha
-      have h1 : a.2.1 = tt := by rw [hae]
-      have h2 : a.2.2 = p := by rw [hae]
-      rw [h1, h2] at this; exact this)
-    policy
-  have htk : (gs ++ newgs).take j1 = gs ++ newgs.take (j1 - gs.length) := by
-    rw [List.take_append, List.take_of_length_le hj1]
-  obtain ⟨i, hi, hie⟩ := filterMap_take (fun y : Grp => y.1.map fun j => (j, y.2)) newgs (j1 - gs.length)
-  have hie' : liveOf (newgs.take (j1 - gs.length)) = (liveOf newgs).take i := hie
-  refine ⟨i, qs, lp, e0, io, ?_, ?_, hrec, hlq⟩
-  · rw [← hnewmap]; simpa [liveOf] using hi
-  · rw [replayJ_filter, List.filter_append, ← h0.hmap]
-    rw [htk, liveOf_append, List.map_append, hie', List.map_take, hnewmap] at hq
-    have hfl : (Jnew.take i).filter (fun j => decide (F ≤ j.loc)) = Jnew.take i := by
-      rw [List.filter_eq_self]
-      intro j hj; simpa using hnewloc j (List.mem_of_mem_take hj)
-    rw [hfl]
-    exact hq
-
-/-- **crash while the entry and the touches are written**, from a relaxed state -/
+/-- **crash while the entry and the touches are written**, from a relaxed state, at any byte -/
 theorem write_phase_crashX (g : Geom) (hB : g.B ≤ 65542) {l : Log} {J : List JE} {D : Image}
     (h : CInvX g l J D) (e : Entry) (qs' : MemQueues) (hewf : EntryWF e)
     (hre : replayEntry l.queues l.cur e = some qs')
@@ -172,20 +83,16 @@ theorem write_phase_crashX (g : Geom) (hB : g.B ≤ 65542) {l : Log} {J : List J
     (w : Bool) (X : Image)
     (hX : CutW w D ((Log.writeEntry g l e).2.1 ++
       (writeTouches g { (Log.writeEntry g l e).1 with queues := qs' } names).2.1) X) :
-    XRes g l.queues qs' X ∧ (w = true → XInvRes g l.queues qs' X) := by
-  have hF : l.files.headD 0 ≤ l.cur := head_le_of_mem h.jinv.h.files.sorted h.jinv.h.files.cur_mem
+    XInvRes g l.queues qs' X := by
   have h2 := cinvx_write g h e qs' hewf hre hinv2
-  have hgrow := writeEntry_grow g l e h.jinv.h.files
-  have hF2 : l.files.headD 0 ≤ ({ (Log.writeEntry g l e).1 with queues := qs' } : Log).cur :=
-    Nat.le_trans hF hgrow.cur_le
   -- explicit witnesses along the write phase
-  obtain ⟨init, t, x, afs, lead, gs, x0⟩ := h.disk
-  obtain ⟨i1, t1, x1, ntf1, B1, y1, hne1, hlen1, hP1, hcut1, hmem1⟩ := entry_extX g x0 e
+  obtain ⟨init, t, x, res, ais, lead, gs, x0⟩ := h.disk
+  obtain ⟨i1, t1, x1, ntf1, B1, y1, _, _, _, hcut1⟩ := entry_extX g x0 e
   have y1' : XInvX g ({ (Log.writeEntry g l e).1 with queues := qs' } : Log)
-      (applyOsOps D (directOps (Log.writeEntry g l e).2.1)) (l.files.headD 0) (J ++ [l.je g e]) i1 t1 x1
-      (afs ++ ntf1) lead (gs ++ [(some (l.je g e), ntf1)]) := y1.congr rfl rfl rfl
-  obtain ⟨i3, t3, x3, ntf2, ns2, B2, y3, hlen3, hnil3, hP3, hcut3, hmem3⟩ :=
-    touches_extX g (l.files.headD 0) lead names _ _ _ _ _ _ _ _ y1'
+      (applyOsOps D (directOps (Log.writeEntry g l e).2.1)) (l.files.headD 0) (J ++ [l.je g e]) i1 t1 x1 []
+      (ais ++ plain ntf1) lead (gs ++ [(some (l.je g e), plain ntf1)]) := y1.congr rfl rfl rfl
+  obtain ⟨i3, t3, x3, r3, ais3, gs3, y3, hcut3⟩ :=
+    touches_extX g (l.files.headD 0) lead names _ _ _ _ _ _ _ _ _ y1'
   -- journal facts for the whole write phase
   have hch1 := je_chunk g l e h.jinv.h.files hewf
   have hch2 := touchesJ_chunk g names _ h2.jinv.h.files
@@ -194,17 +101,9 @@ theorem write_phase_crashX (g : Geom) (hB : g.B ≤ 65542) {l : Log} {J : List J
   have hchunk3 := h2.jinv.chunk.append hch2
   rw [← hJeq] at hchunk3
   have hreps := phase_replays g h.jinv e qs' hewf hre hinv2 names hnames
-  have hnewloc : ∀ j ∈ l.je g e :: touchesJ g { (Log.writeEntry g l e).1 with queues := qs' } names,
-      l.files.headD 0 ≤ j.loc := by
-    intro j hj
-    rcases List.mem_cons.mp hj with rfl | hj
-    · have := hch1.bounds (l.je g e) (by simp); omega
-    · have := hch2.bounds j hj; omega
-  -- facts about the prefixes of the new journal
   have hsub : ∀ i, (J ++ (l.je g e :: touchesJ g { (Log.writeEntry g l e).1 with queues := qs' } names).take i).Sublist
       (J ++ l.je g e :: touchesJ g { (Log.writeEntry g l e).1 with queues := qs' } names) :=
     fun i => List.Sublist.append_left (List.take_sublist _ _) _
-  -- every crash state holding whole frames
   have hwhole : ∀ i, DiskX g X (l.files.headD 0)
       (J ++ (l.je g e :: touchesJ g { (Log.writeEntry g l e).1 with queues := qs' } names).take i) →
       XInvRes g l.queues qs' X := by
@@ -217,64 +116,11 @@ theorem write_phase_crashX (g : Geom) (hB : g.B ≤ 65542) {l : Log} {J : List J
     rcases hqe with hqe | hqe
     · exact Or.inl (hab.symm.trans hqe)
     · exact Or.inr (hab.symm.trans hqe)
-  -- the crash state is a crash tape of the final bytes
-  have hlenF : (i3.flatten ++ t3).length = endPos g 0 (untag (afs ++ ntf1 ++ ntf2)) := by
-    by_cases hn : names = []
-    · obtain ⟨a1, _, a3⟩ := hnil3 hn
-      subst a1
-      rw [List.append_nil, hP3, a3, List.append_nil]
-      exact hlen1
-    · exact (hlen3 hn).2
-  have hctape : ∃ Pm, RTape g (l.files.headD 0) Pm X ∧ PrefixCut (init.flatten ++ t) (i3.flatten ++ t3) Pm ∧
-      (w = true → ∃ i, DiskX g X (l.files.headD 0)
-        (J ++ (l.je g e :: touchesJ g { (Log.writeEntry g l e).1 with queues := qs' } names).take i)) := by
-    rcases CutW.of_append _ hX with hX | hX
-    · obtain ⟨Pm, c1, c2, c3⟩ := hcut1 w X hX
-      refine ⟨Pm, c1, by rw [hP3]; exact c2.extend B2, ?_⟩
-      intro hw
-      rcases c3 hw with hd | hd
-      · exact ⟨0, by simpa using hd⟩
-      · exact ⟨1, by simpa using hd⟩
-    · obtain ⟨Pm, c1, c2, c3⟩ := hcut3 w X hX
-      refine ⟨Pm, c1, by rw [hP1] at c2; exact c2.shift, ?_⟩
-      intro hw
-      obtain ⟨i, _, hd⟩ := c3 hw
-      exact ⟨i + 1, by rw [List.take_succ_cons]; simpa [List.append_assoc] using hd⟩
-  obtain ⟨Pm, hct, hpc, hpw⟩ := hctape
-  refine ⟨?_, fun hw => by obtain ⟨i, hd⟩ := hpw hw; exact hwhole i hd⟩
-  intro policy
-  have y3' : XInvX g (writeTouches g { (Log.writeEntry g l e).1 with queues := qs' } names).1
-      (applyOsOps (applyOsOps D (directOps (Log.writeEntry g l e).2.1))
-        (directOps (writeTouches g { (Log.writeEntry g l e).1 with queues := qs' } names).2.1))
-      (l.files.headD 0) (J ++ l.je g e :: touchesJ g { (Log.writeEntry g l e).1 with queues := qs' } names)
-      i3 t3 x3 (afs ++ (ntf1 ++ ntf2)) lead (gs ++ ((some (l.je g e), ntf1) :: ns2)) := by
-    have := y3
-    rw [← hJeq] at this
-    rw [List.append_assoc afs, show gs ++ [(some (l.je g e), ntf1)] ++ ns2 =
-      gs ++ ((some (l.je g e), ntf1) :: ns2) by simp] at this
-    exact this
-  obtain ⟨qf, hqf, _⟩ := hreps (names.length + 1)
-  rw [List.take_of_length_le (by simp [touchesJ_length])] at hqf
-  obtain ⟨i, qsr, lp, e0, io, hi, hqr, hrec, hlq⟩ := phase_readX g hB x0 y3'
-    (by rw [← List.append_assoc]; exact hlenF) hnewloc hwf qf hqf
-    (by
-      intro a ha
-      have hm : ∃ f off, Effect.write f off (encodeFrame a.2.1 a.2.2) ∈ (Log.writeEntry g l e).2.1 ++
-          (writeTouches g { (Log.writeEntry g l e).1 with queues := qs' } names).2.1 := by
-        rcases List.mem_append.mp ha with ha | ha
-        · obtain ⟨f, off, hm⟩ := hmem1 a ha
-          exact ⟨f, off, List.mem_append_left _ hm⟩
-        · obtain ⟨f, off, hm⟩ := hmem3 a ha
-          exact ⟨f, off, List.mem_append_right _ hm⟩
-      obtain ⟨f, off, hm⟩ := hm
-      exact htorn _ _ f off hm)
-    X Pm hct.ctape hpc policy
-  obtain ⟨q, hq, hqe⟩ := hreps i
-  rw [hqr] at hq
-  cases hq
-  refine ⟨lp, e0, io, hrec, ?_⟩
-  rcases hqe with hqe | hqe
-  · exact Or.inl (hlq.symm.trans hqe)
-  · exact Or.inr (hlq.symm.trans hqe)
+  rcases CutW.of_append _ hX with hX | hX
+  · rcases hcut1 (fun t p f off hm => htorn t p f off (List.mem_append_left _ hm)) w X hX with hd | hd
+    · exact hwhole 0 (by simpa using hd)
+    · exact hwhole 1 (by simpa using hd)
+  · obtain ⟨i, _, hd⟩ := hcut3 (fun t p f off hm => htorn t p f off (List.mem_append_right _ hm)) w X hX
+    exact hwhole (i + 1) (by rw [List.take_succ_cons]; simpa [List.append_assoc] using hd)
 
 end MRL.L
